@@ -578,6 +578,12 @@ class StmtMixin:
                 ghost["_seq"] = ghost0["_seq"]
         for inv in spec.invariant:
             head = head.assume(self.spec_bool(inv, head, ghost))
+        for i, cl in enumerate(spec.derived):
+            # a consequence of the invariants at an arbitrary loop head (a cut: proved there once, then available to the body
+            # and after the loop; it needs no preservation proof of its own)
+            self.oblige(head, "inv-derived", f"#{ordn}.{i}", self.spec_goal(cl, head, ghost),
+                        descr=f"follows from the loop invariants: {cl!r}", node=s)
+            head = head.assume(self.spec_bool(cl, head, ghost))
         # --- one arbitrary iteration
         if setlike:
             k = z3.Const(fresh_name("cur"), zsort(kt))
@@ -604,9 +610,13 @@ class StmtMixin:
             st_b.frame.locals.update({("outer" + k_): v_ for k_, v_ in ghost.items()})
             for o in self.exec_block(s.body, st_b):
                 if o.kind in ("ok", "cnt"):
+                    # each conjunct is proved with the conjuncts before it as lemmas (all of them must be proved anyway:
+                    # A and (A -> B) is A and B)
+                    st_acc = o.st
                     for i, inv in enumerate(spec.invariant):
-                        self.oblige(o.st, "inv-step", f"#{ordn}.{i}", self.spec_goal(inv, o.st, nxt_ghost),
+                        self.oblige(st_acc, "inv-step", f"#{ordn}.{i}", self.spec_goal(inv, o.st, nxt_ghost),
                                     descr=f"loop invariant {inv!r} preserved", node=s)
+                        st_acc = st_acc.assume(self.spec_bool(inv, o.st, nxt_ghost))
                     self.loop_frame_oblige(st, o.st, lf_allowed, ordn, s)
                 elif o.kind == "brk":
                     yield Outcome("ok", o.st)
